@@ -39,6 +39,7 @@ pub fn gen(rng: &mut Rng, tier: Tier, idx: u64) -> Case {
     let mut c = Case::new("C09", "c09-entrypoints", sw.fam, Front::B);
     let mut a = gen::gen_packet(rng, &sw);
     maybe_retarget(rng, &sw, &mut a, 200);
+    gen::maybe_retarget_props(rng, sw.fam, &mut a, 40);
     let len = refcodec::ref_body_len(&a, sw.fam) + 5;
     c.packets = vec![a];
     let pp = *rng.pick(&[0u64, 100, 500, 1000]);
